@@ -86,6 +86,7 @@ def requiredCoverage : List (String × String × String × List String) := [
       "AtomicIncr", "AtomicDecrBy", "SRem", "SMembers", "SCard"]),
   -- get-or-create of the per-key state/queue must be ONE critical section (look up, create, store):
   ("limit.RateLimitState", "groupsStateByLimiter", "mutex", ["getLimiterState"]),
+  ("concurrentmap.ConcurrentMap", "simpleMap", "mutex", ["LookupOrAssign"]),
   ("remedies.StrategyBasedQueuePlugin", "queues", "queuesMutex", ["OnRequest"]),
   ("limit.singleRateLimitState", "counter", "mutex", ["TryToIncrement"]),
   ("limit.singleRateLimitState", "windowEndTime", "mutex", []),
